@@ -1026,17 +1026,18 @@ func (c *Client) trySwitchingProtocol() error {
 
 	c.reset()
 
-	c.setuppedTransport = &SessionTransport{
-		Protocol: ProtocolTCP,
-		Profile:  prevProfile,
-	}
-
 	// some Hikvision cameras require a describe before a setup
 	if c.lastDescribeURL != nil {
 		_, _, err := c.doDescribe(c.lastDescribeURL)
 		if err != nil {
 			return err
 		}
+	}
+
+	// set the transport after the describe, since a redirect resets it
+	c.setuppedTransport = &SessionTransport{
+		Protocol: ProtocolTCP,
+		Profile:  prevProfile,
 	}
 
 	for i, cm := range prevMedias {
@@ -1913,17 +1914,18 @@ func (c *Client) doSetup(
 
 				c.reset()
 
-				c.setuppedTransport = &SessionTransport{
-					Protocol: ProtocolTCP,
-					Profile:  th.Profile,
-				}
-
 				// some Hikvision cameras require a describe before a setup
 				if c.lastDescribeURL != nil {
 					_, _, err = c.doDescribe(c.lastDescribeURL)
 					if err != nil {
 						return nil, err
 					}
+				}
+
+				// set the transport after the describe, since a redirect resets it
+				c.setuppedTransport = &SessionTransport{
+					Protocol: ProtocolTCP,
+					Profile:  th.Profile,
 				}
 
 				return c.doSetup(baseURL, medi, 0, 0)
